@@ -258,9 +258,14 @@ def run(prop_id, tier, seed, jobs=None):
         'wall_s': round(wall, 2),
         'violations': len(violations),
     }
-    os.makedirs(os.path.join(VERIF, 'evidence'), exist_ok=True)
-    with open(os.path.join(VERIF, 'evidence', prop_id + '.json'), 'w') as f:
-        json.dump(ev, f, indent=1, sort_keys=True, default=repr)
+    if impl.REPO == '/repo' and not os.environ.get('VERIF_UNIT_FILTER'):
+        os.makedirs(os.path.join(VERIF, 'evidence'), exist_ok=True)
+        with open(os.path.join(VERIF, 'evidence', prop_id + '.json'), 'w') as f:
+            json.dump(ev, f, indent=1, sort_keys=True, default=repr)
+    else:
+        # runs against a scratch tree (seeded changes) or a development filter never touch the evidence
+        sys.stderr.write('evidence not written (VERIF_REPO=%s, filter=%s)\n'
+                         % (impl.REPO, os.environ.get('VERIF_UNIT_FILTER')))
     sys.stderr.write('%s %s: units=%d evaluations=%d failures=%d groups=%d known=%d violations=%d wall=%.1fs\n'
                      % (prop_id, tier, n, cov.get('evaluations', 0), len(failures), len(groups),
                         len(known_hits), len(violations), wall))
